@@ -197,7 +197,7 @@ theorem total_routeLoop (i : Nat) (hint : Option Nat) (fuel : Nat) (w : W) :
                 have hp0 : placed i RouteResult.backlog j' = 0 := rfl
                 rw [hp0] at hr'
                 have hd : cEnv i ((w2.env.emit Ev.panicked).emit (Ev.dropped j'.id)) = cEnv i w2.env + cj i [j'] := by
-                  have := cEnv_discard i (w2.env.emit Ev.panicked) .shutdown j'
+                  have := cEnv_discard i (w2.env.emit Ev.panicked) (h := none) .shutdown j'
                   rw [cEnv_emit _ _ _ rfl] at this
                   simpa [cEnv, Env.discard, Env.emit, cTerm, isTerm, List.countP_append, List.countP_cons] using this
                 simp only [W.emit, total] at hr' ht' ⊢
@@ -388,8 +388,8 @@ theorem cj_expiredInOrder (i : Nat) (cfg : Cfg) (now : Nat) (q : List Job) :
     · rcases hcases with h | h | h | h | h <;>
         simp [List.filter_cons, he, h, cj_cons_ite] <;> omega
 
-theorem cEnv_foldl_discard (i : Nat) (r : Reason) (l : List Job) (e : Env) :
-    cEnv i (l.foldl (fun e j => e.discard r j) e) = cEnv i e + cj i l := by
+theorem cEnv_foldl_discard (i : Nat) (h : Option Nat) (r : Reason) (l : List Job) (e : Env) :
+    cEnv i (l.foldl (fun e j => e.discard h r j) e) = cEnv i e + cj i l := by
   induction l generalizing e with
   | nil => rfl
   | cons j l ih => rw [List.foldl_cons, ih, cEnv_discard, cj_cons i j l]; omega
@@ -410,6 +410,9 @@ theorem total_calcRest (i : Nat) (w : W) : total i w.calcRest = total i w := by
 theorem cPool_map_disc (i : Nat) (pool : List WP) (d : Option (Nat × Mode)) :
     cPool i (pool.map fun p => { p with disc := d }) = cPool i pool := by
   simp [cPool, List.map_map, Function.comp_def]
+
+theorem total_setHandler (i : Nat) (w : W) (h : Option Nat) : total i (w.setHandler h) = total i w := by
+  simp [W.setHandler, total, cPool, List.map_map, Function.comp_def, cEnv_emit i w.env (.installed h) rfl]
 
 theorem total_updateSettings (i : Nat) (w : W) (d : Option (Option (Nat × Mode))) (n : Option Nat) :
     total i (w.updateSettings d n) = total i w := by
@@ -480,7 +483,7 @@ theorem cEnv_foldl_add (i : Nat) (f : Env → Job → Env) (hf : ∀ e j, cEnv i
   | cons j l ih => rw [List.foldl_cons, ih, hf, cj_cons i j l]; omega
 
 theorem cEnv_dropped (i : Nat) (e : Env) (j : Job) : cEnv i (e.emit (.dropped j.id)) = cEnv i e + cj i [j] := by
-  have := cEnv_discard i e .shutdown j
+  have := cEnv_discard i e (h := none) .shutdown j
   simpa [cEnv, Env.discard, Env.emit, cTerm, isTerm, List.countP_append, List.countP_cons] using this
 
 theorem cEnv_dropMsg (i : Nat) (e : Env) (m : FMsg) : cEnv i (e.dropMsg m) = cEnv i e + cInbox i [m] := by
@@ -510,7 +513,7 @@ theorem cEnv_foldl_dropMsg (i : Nat) (inbox : List FMsg) (e : Env) :
 theorem total_postStop (i : Nat) (w : W) : total i w.postStop = total i w := by
   unfold W.postStop
   simp only
-  have h1 : ∀ e : Env, cEnv i (w.queue.foldl Env.dropQueued e) = cEnv i e + cj i w.queue := by
+  have h1 : ∀ e : Env, cEnv i (w.queue.foldl (Env.dropQueued w.handler) e) = cEnv i e + cj i w.queue := by
     intro e
     apply cEnv_foldl_add
     intro e j
@@ -566,6 +569,7 @@ theorem total_handleMsg (i : Nat) (w : W) (m : FMsg) : total i (w.handleMsg m) =
   | finished who key => rw [h0 _ rfl]; exact total_workerFinishedJob i w who key
   | adjust n => rw [h0 _ rfl]; exact total_resizePool i w n
   | updateSettings d n => rw [h0 _ rfl]; exact total_updateSettings i w d n
+  | setHandler h => rw [h0 _ rfl]; exact total_setHandler i w h
   | drainRequests => rw [h0 _ rfl]; exact total_emit i _ _ rfl
   | calculate =>
     rw [h0 _ rfl]
@@ -683,7 +687,7 @@ theorem total_finish (i : Nat) (w : W) (aid : Nat) (ok : Bool) : total i (w.fini
             rw [henv]; simpa [Env.getActor, haid] using ha
           have hset := cEnv_setActor i w1.env a { a with running := none } hget
           have hh : cEnv i ((w.env.emit (.finishOk aid)).emit (.handled aid j.id)) = cEnv i w.env + cj i [j] := by
-            have := cEnv_discard i (w.env.emit (.finishOk aid)) .shutdown j
+            have := cEnv_discard i (w.env.emit (.finishOk aid)) (h := none) .shutdown j
             rw [cEnv_emit _ _ _ rfl] at this
             simpa [cEnv, Env.discard, Env.emit, cTerm, isTerm, List.countP_append, List.countP_cons] using this
           have h1 : cEnv i w1.env = cEnv i w.env + cj i [j] := by rw [henv]; exact hh
@@ -735,6 +739,9 @@ theorem total_applyOp (i : Nat) (w : W) (op : Op) : total i (w.applyOp op) = tot
       | none => exact total_emit i w _ rfl
       | some n => simp only; rw [total_emit _ _ _ rfl]; exact total_emit i w _ rfl
   | drain =>
+    simp only [W.applyOp, opAdds, Nat.add_zero]
+    rw [total_send _ _ _ rfl, total_emit _ _ _ rfl]
+  | setHandler h =>
     simp only [W.applyOp, opAdds, Nat.add_zero]
     rw [total_send _ _ _ rfl, total_emit _ _ _ rfl]
   | advance => rfl
